@@ -197,7 +197,16 @@ func (w *World) judgeC09(o *parseOutcome) (map[string]string, string, c09Flags) 
 				if got < want {
 					shape = "earlier-token"
 				}
-				return map[string]string{"class": "blame", "shape": shape},
+				sig := map[string]string{"class": "blame", "shape": shape}
+				if len(w.GE.Unproductive) > 0 {
+					// The grammar is not reduced: some rule derives no terminal
+					// string. The LR automaton does not know that and shifts
+					// tokens that only such a rule could continue, so the error
+					// is detected later than the first token that is not a prefix
+					// of any sentence.
+					sig["grammar"] = "unreduced"
+				}
+				return sig,
 					fmt.Sprintf("the earliest Error delivered carries token #%d (type %s) but the input stops being a prefix of any sentence at token #%d; %d Error(s) delivered, recoveries entered before the first delivery: %d",
 						got, w.P.TokenToString(first.Tok.Type), want, len(o.Rec.Errors), o.Rec.RecoversAtFirstError), fl
 			}
